@@ -404,8 +404,7 @@ theorem agree_imported (h : GenWF s) : Agree s (imported s) := by
     constructor
     · rintro ⟨n, hn, ht, ha⟩
       obtain ⟨k, hk⟩ := mem_exportVals.mp hn
-      have := (h.node.ownA k n hk).1
-      simp only at this
+      have : n.addr = k := (h.node.ownA k n hk).1
       rw [← ha, this]; exact ⟨n, hk, ht⟩
     · rintro ⟨n, hn, ht⟩
       exact ⟨n, mem_exportVals.mpr ⟨a, hn⟩, ht, (h.node.ownA a n hn).1⟩
@@ -545,5 +544,248 @@ theorem agree_imported (h : GenWF s) : Agree s (imported s) := by
   · intro k; rw [imported_inflations]; exact get_import_exportVals _ _ h.inflNodup h.inflKey k
 
 end agree
+
+/-! ## The partial theorem -/
+
+/-- **C12, proved part.** For every state that is well-formed in the sense of `GenWF` (as reachable
+states are, provided no recorded swap is below 100 — F4): the export does not panic, the exported
+genesis passes the validation of all three modules, the re-import succeeds, and the new state agrees
+with the old one on deposits, providers, nodes and node queue, plans, links, provider index and plan
+counter, sessions with the session queue and all four session indices, swaps, the inflation schedule,
+all parameters, and the SDK side.
+
+Missing for the full statement (and false on this tree): the eleven subscription tables and the
+subscription counter (F5), the session counter (F9), hence the continuation (identifiers are reissued;
+a surviving session cannot be settled). -/
+theorem roundtrip_partial (s : State) (h : GenWF s) :
+    exportPanics s = false ∧
+    validateGenesis (exportVpn s) (exportSwap s) (exportMint s) = none ∧
+    ∃ s', reimport s = some s' ∧ Agree s s' :=
+  ⟨export_no_panic h, export_valid h, imported s, reimport_ok h, agree_imported h⟩
+
+/-! ## What every round trip loses (no hypotheses) -/
+
+theorem status_of_isOneOf {st : Status} (h : st.IsOneOf [.StatusActive, .StatusInactive] = true) :
+    st = .StatusActive ∨ st = .StatusInactive := by
+  cases st <;> simp [Status.IsOneOf, Status.Equal] at h ⊢
+
+/-- A successful re-import always yields `imported s`. -/
+theorem reimport_eq_imported {s s' : State} (h : reimport s = some s') : s' = imported s := by
+  unfold reimport at h
+  split at h
+  · cases h
+  · split at h
+    · cases h
+    · rename_i hv
+      have hvpn : validateVpn (exportVpn s) = none := by
+        unfold validateGenesis at hv
+        rw [firstOf_eq_none] at hv
+        exact pfx_eq_none.mp (hv (pfx "vpn:" (validateVpn (exportVpn s))) (by simp))
+      unfold validateVpn at hvpn
+      rw [firstOf_eq_none] at hvpn
+      have hR : ∀ p ∈ exportProviders s, p.status = .StatusActive ∨ p.status = .StatusInactive := by
+        intro p hp
+        have h1 := pfx_eq_none.mp (hvpn (pfx "invalid provider genesis: " (validateProviderGenesis (exportVpn s).providers (exportVpn s).providerParams)) (by simp))
+        unfold validateProviderGenesis at h1
+        rw [firstOf_eq_none] at h1
+        have h2 := h1 (firstErr (exportVpn s).providers Provider.validate) (by simp)
+        rw [firstErr_eq_none] at h2
+        have h3 := h2 p hp
+        unfold Provider.validate at h3
+        rw [firstOf_eq_none] at h3
+        exact status_of_isOneOf (chk_eq_none.mp (h3 (chk (p.status.IsOneOf [.StatusActive, .StatusInactive]) "status must be one of [active, inactive]") (by simp)))
+      have hN : ∀ n ∈ exportNodes s, n.status = .StatusActive ∨ n.status = .StatusInactive := by
+        intro p hp
+        have h1 := pfx_eq_none.mp (hvpn (pfx "invalid node genesis: " (validateNodeGenesis (exportVpn s).nodes (exportVpn s).nodeParams)) (by simp))
+        unfold validateNodeGenesis at h1
+        rw [firstOf_eq_none] at h1
+        have h2 := h1 (firstErr (exportVpn s).nodes Node.validate) (by simp)
+        rw [firstErr_eq_none] at h2
+        have h3 := h2 p hp
+        unfold Node.validate at h3
+        rw [firstOf_eq_none] at h3
+        exact status_of_isOneOf (chk_eq_none.mp (h3 (chk (p.status.IsOneOf [.StatusActive, .StatusInactive]) "status must be one of [active, inactive]") (by simp)))
+      have hP : ∀ it ∈ exportPlans s, it.plan.status = .StatusActive ∨ it.plan.status = .StatusInactive := by
+        intro p hp
+        have h1 := pfx_eq_none.mp (hvpn (pfx "invalid plan genesis: " (validatePlanGenesis (exportVpn s).plans)) (by simp))
+        unfold validatePlanGenesis at h1
+        rw [firstOf_eq_none] at h1
+        have h2 := h1 (firstErr (exportVpn s).plans (fun it => it.plan.validate)) (by simp)
+        rw [firstErr_eq_none] at h2
+        have h3 := h2 p hp
+        unfold Plan.validate at h3
+        rw [firstOf_eq_none] at h3
+        exact status_of_isOneOf (chk_eq_none.mp (h3 (chk (p.plan.status.IsOneOf [.StatusActive, .StatusInactive]) "status must be one of [active, inactive]") (by simp)))
+      rw [initGenesis_exported s hN hP hR] at h
+      simp only [Option.some.injEq] at h
+      exact h.symm
+
+/-- **F5, in general.** Whatever the state, after a successful round trip every subscription table is
+empty and the subscription counter is absent: subscriptions, allocations, payouts and the identifiers
+issued so far are lost. -/
+theorem reimport_loses_subscriptions {s s' : State} (h : reimport s = some s') :
+    s'.subs = [] ∧ s'.subQ = [] ∧ s'.subForAcc = [] ∧ s'.subForNode = [] ∧ s'.subForPlan = [] ∧ s'.allocs = [] ∧
+    s'.payouts = [] ∧ s'.payQ = [] ∧ s'.payForAcc = [] ∧ s'.payForNode = [] ∧ s'.payForAccNode = [] ∧ s'.subCount = none := by
+  rw [reimport_eq_imported h]; exact imported_subscriptions_empty s
+
+/-- **F9, in general.** After a successful round trip the session counter is the largest identifier
+among the sessions still stored, whatever it was before. -/
+theorem reimport_session_counter {s s' : State} (h : reimport s = some s') :
+    s'.sessCount = some (maxId ((exportVals session.SessionKey s.sessions).map (·.id))) := by
+  rw [reimport_eq_imported h]; exact imported_sessCount s
+
+/-- Consequently, when the session with the largest identifier has already been settled (every stored
+session has a smaller identifier than the counter), the counter goes back. -/
+theorem reimport_session_counter_decreases {s s' : State} {c : Nat} (h : reimport s = some s')
+    (_hc : s.sessCount = some c) (hpos : 0 < c) (hk : ∀ i x, s.sessions.get i = some x → x.id < c) :
+    ∃ c', s'.sessCount = some c' ∧ c' < c := by
+  refine ⟨_, reimport_session_counter h, ?_⟩
+  rcases maxId_mem ((exportVals session.SessionKey s.sessions).map (·.id)) with h0 | hm
+  · omega
+  · obtain ⟨x, hx, hid⟩ := List.mem_map.mp hm
+    obtain ⟨i, hi⟩ := mem_exportVals.mp hx
+    rw [← hid]; exact hk i x hi
+
+/-! ## Witnesses: reachable states on which the full statement fails
+
+Each witness state is *computed* by the model from a genesis of the domain and a history (so it is
+reachable by construction); the same history is a corpus file that the check replays on the real
+application. `decide +kernel` evaluates the model in the kernel. -/
+
+section witnesses
+
+def wParams : Params :=
+  { provDeposit := ⟨"udvpn", 0⟩, provShare := 100000000000000000, nodeDeposit := ⟨"udvpn", 0⟩, activeDur := 86400000000000,
+    maxGB := [], minGB := [], maxHr := [], minHr := [], maxSubGB := 10, minSubGB := 1, maxSubHr := 10, minSubHr := 1,
+    nodeShare := 100000000000000000, subDelay := 7200000000000, sessDelay := 1800000000000, proof := false,
+    swapOn := true, swapDenom := "udvpn", approveBy := [1] }
+
+/-- The genesis of `corpus/C12_F*.ops`. -/
+def wGenesis : Genesis :=
+  { time := 1700000000000000000, params := wParams,
+    balances := [([1], "udvpn", 1000000000), ([2], "udvpn", 1000000000), ([3], "udvpn", 1000000000), ([4], "udvpn", 1000000000)] }
+
+def acc (b : UInt8) : TextAddr := { role := .acc, bytes := [b] }
+def nod (b : UInt8) : TextAddr := { role := .node, bytes := [b] }
+/-- "https://n.example:8080" -/
+def wUrl : Bytes := [0x68,0x74,0x74,0x70,0x73,0x3a,0x2f,0x2f,0x6e,0x2e,0x65,0x78,0x61,0x6d,0x70,0x6c,0x65,0x3a,0x38,0x30,0x38,0x30]
+def udvpn (n : Int) : Option Coins := some [⟨"udvpn", n⟩]
+def wNodeUp : List Op :=
+  [.tx (.nodeRegister (acc 2) (udvpn 10) (udvpn 5) wUrl true), .tx (.nodeStatus (nod 2) 1)]
+
+/-! ### F4 — a small swap invalidates the export -/
+
+def hashB : Bytes := List.replicate 32 0xbb
+/-- corpus/C12_F4_small_swap_invalid.ops (second block). -/
+def histF4 : List Op := [.begin 1700000005000000000, .tx (.swap (acc 1) hashB (acc 3) 500), .endB]
+theorem histF4_runs : (run wGenesis.state histF4).isSome = true := by decide +kernel
+def wF4 : State := (run wGenesis.state histF4).get histF4_runs
+
+theorem wF4_reachable : Reachable wF4 ∧ AtBoundary wF4 :=
+  ⟨⟨wGenesis, histF4, (Option.some_get histF4_runs).symm⟩, by decide +kernel⟩
+
+/-- **F4.** The approver's swap of 500 is accepted and recorded as 5; the exported genesis of the
+resulting (reachable, block-boundary) state fails `Swap.Validate` ("amount cannot be less than 100"),
+so there is nothing to re-import. -/
+theorem small_swap_invalidates_export :
+    (wF4.swaps.get hashB).map (·.amt) = some ⟨"udvpn", 5⟩ ∧
+    validateVpn (exportVpn wF4) = none ∧
+    (validateSwap (exportSwap wF4)).isSome = true ∧
+    validateGenesis (exportVpn wF4) (exportSwap wF4) (exportMint wF4) ≠ none ∧
+    (reimport wF4).isNone = true := by decide +kernel
+
+/-! ### F5 — subscriptions are lost -/
+
+/-- corpus/C12_F5_subscriptions_lost.ops: a per-gigabyte subscription (allocation) with a session and a
+per-hour subscription (payout). -/
+def histF5 : List Op :=
+  [.begin 1700000005000000000] ++ wNodeUp ++
+  [.tx (.nodeSubscribe (acc 3) (nod 2) 1 0 "udvpn"), .tx (.nodeSubscribe (acc 4) (nod 2) 0 2 "udvpn"),
+   .tx (.sessStart (acc 3) 1 (nod 2)), .endB]
+theorem histF5_runs : (run wGenesis.state histF5).isSome = true := by decide +kernel
+def wF5 : State := (run wGenesis.state histF5).get histF5_runs
+theorem wF5_reachable : Reachable wF5 ∧ AtBoundary wF5 :=
+  ⟨⟨wGenesis, histF5, (Option.some_get histF5_runs).symm⟩, by decide +kernel⟩
+
+theorem wF5_reimports : (reimport wF5).isSome = true := by decide +kernel
+/-- The state after the round trip. -/
+def wF5' : State := (reimport wF5).get wF5_reimports
+theorem wF5_reimport : reimport wF5 = some wF5' := (Option.some_get wF5_reimports).symm
+
+/-- **F5.** Two live subscriptions, an allocation, a payout and the counter 2 before; none of them
+after the (valid, successful) round trip — while the escrow records, the escrow balance backing them and
+the session that refers to subscription 1 are all still there. -/
+theorem subscriptions_lost_by_roundtrip :
+    validateGenesis (exportVpn wF5) (exportSwap wF5) (exportMint wF5) = none ∧
+    (wF5.subs.keys = [1, 2] ∧ wF5.allocs.keys = [(1, [3])] ∧ wF5.payouts.keys = [2] ∧ wF5.subCount = some 2) ∧
+    (wF5'.subs = [] ∧ wF5'.allocs = [] ∧ wF5'.payouts = [] ∧ wF5'.payQ = [] ∧ wF5'.subQ = [] ∧ wF5'.subCount = none) ∧
+    (wF5'.deposits.get [3] = some [⟨"udvpn", 10⟩] ∧ wF5'.deposits.get [4] = some [⟨"udvpn", 10⟩] ∧
+      balance wF5' depositAddr "udvpn" = 20) ∧
+    (wF5'.sessions.get 1).map (·.sub) = some 1 := by decide +kernel
+
+/-- The continuation differs, and fatally: ending the surviving session and letting it settle halts
+the re-imported chain (`subscription does not exist` in the session EndBlock), while the original chain
+processes the same history. -/
+def contF5 : List Op :=
+  [.begin 1700000100000000000, .tx (.sessEnd (acc 3) 1 0), .endB, .begin 1700002000000000000, .endB]
+theorem roundtrip_then_halt : (run wF5 contF5).isSome = true ∧ (run wF5' contF5).isNone = true := by decide +kernel
+
+/-! ### F9 — the session counter goes back -/
+
+/-- corpus/C12_F9_session_counter_reissued.ops: sessions 1 (kept alive) and 2 (ended, settled). -/
+def histF9 : List Op :=
+  [.begin 1700000005000000000] ++ wNodeUp ++
+  [.tx (.nodeSubscribe (acc 3) (nod 2) 1 0 "udvpn"), .tx (.nodeSubscribe (acc 4) (nod 2) 1 0 "udvpn"),
+   .tx (.sessStart (acc 3) 1 (nod 2)), .tx (.sessStart (acc 4) 2 (nod 2)), .tx (.sessEnd (acc 4) 2 0), .endB,
+   .begin 1700001000000000000, .tx (.sessUpdate (nod 2) 1 10 10 1 .none), .endB,
+   .begin 1700001900000000000, .endB]
+theorem histF9_runs : (run wGenesis.state histF9).isSome = true := by decide +kernel
+def wF9 : State := (run wGenesis.state histF9).get histF9_runs
+theorem wF9_reachable : Reachable wF9 ∧ AtBoundary wF9 :=
+  ⟨⟨wGenesis, histF9, (Option.some_get histF9_runs).symm⟩, by decide +kernel⟩
+theorem wF9_reimports : (reimport wF9).isSome = true := by decide +kernel
+def wF9' : State := (reimport wF9).get wF9_reimports
+theorem wF9_reimport : reimport wF9 = some wF9' := (Option.some_get wF9_reimports).symm
+
+/-- A fresh subscription and a session on it, after the round trip. -/
+def contF9 : List Op :=
+  [.begin 1700002000000000000, .tx (.nodeSubscribe (acc 4) (nod 2) 1 0 "udvpn"), .tx (.sessStart (acc 4) 1 (nod 2)), .endB]
+
+/-- **F9.** Identifiers 1 and 2 were issued (counter 2), session 2 is settled and gone, session 1 lives.
+After the round trip the counter is 1, and the next session started gets identifier 2 again. -/
+theorem session_counter_reissued :
+    wF9.sessCount = some 2 ∧ wF9.sessions.keys = [1] ∧
+    wF9'.sessCount = some 1 ∧
+    ((run wF9' contF9).bind (·.sessions.get 2)).map (fun x => (x.id, x.sub, x.addr)) = some (2, 1, [4]) := by decide +kernel
+
+/-! ### F8 (fixed) — an emptied deposit record is deleted -/
+
+/-- The write-back after a subtraction never leaves an empty record. -/
+theorem putDeposit_no_empty (s : State) (a : Addr) (c cs : Coins) (h : (putDeposit s a c).deposits.get a = some cs) :
+    cs.isZero = false := by
+  unfold putDeposit at h
+  split at h
+  · simp [deleteDeposit, Tbl.get_erase] at h
+  · rename_i hz
+    simp only [setDeposit, Tbl.get_set_eq, Option.some.injEq] at h
+    rw [← h]; simpa using hz
+
+/-- corpus/C12_F8_emptied_deposit_deleted.ops: an unused per-gigabyte subscription, cancelled, refunded in
+full after the delay. -/
+def histF8 : List Op :=
+  [.begin 1700000005000000000] ++ wNodeUp ++
+  [.tx (.nodeSubscribe (acc 4) (nod 2) 1 0 "udvpn"), .tx (.subCancel (acc 4) 1), .endB,
+   .begin 1700007206000000000, .endB]
+theorem histF8_runs : (run wGenesis.state histF8).isSome = true := by decide +kernel
+def wF8 : State := (run wGenesis.state histF8).get histF8_runs
+
+/-- **F8, fixed.** After the full refund there is no deposit record left (before the fix: a record with
+empty coins, which `Deposit.Validate` rejects), the escrow account is empty, the export validates and
+re-imports. -/
+theorem emptied_deposit_is_deleted :
+    wF8.deposits = [] ∧ wF8.subs = [] ∧ balance wF8 depositAddr "udvpn" = 0 ∧ balance wF8 [4] "udvpn" = 1000000000 ∧
+    validateGenesis (exportVpn wF8) (exportSwap wF8) (exportMint wF8) = none ∧ (reimport wF8).isSome = true := by decide +kernel
+
+end witnesses
 
 end Hub.Props.C12
